@@ -41,6 +41,11 @@ pub uninterp spec fn clock() -> i128;
 impl Timestamp {
     #[verifier::external_body] pub fn now() -> (r: Timestamp) ensures r.ns == clock() { unimplemented!() }
 }
+/// `Ord::max` / `Ord::min` on Timestamp (API neighbourhood, not called by the unchanged code), as inherent methods
+impl Timestamp {
+    pub fn max(self, o: Timestamp) -> (r: Timestamp) ensures r == (if self.ns >= o.ns { self } else { o }) { if self.ns >= o.ns { self } else { o } }
+    pub fn min(self, o: Timestamp) -> (r: Timestamp) ensures r == (if self.ns <= o.ns { self } else { o }) { if self.ns <= o.ns { self } else { o } }
+}
 impl PartialEq for Timestamp { #[verifier::external_body] fn eq(&self, o: &Timestamp) -> (r: bool) { unimplemented!() } }
 impl PartialEqSpecImpl for Timestamp {
     open spec fn obeys_eq_spec() -> bool { true }
